@@ -6,6 +6,7 @@ from harness import coqio, cparse, nets, compiled
 from harness.common import Check
 from translate import gatecode as t_gc, wrapper as t_wr
 
+LEVEL = "translation_validation"
 THEOREMS = ["C02_validator_sound", "C02_gate_templates", "C02_counts"]
 TRUSTED = [
     "Coq 8.16.1 kernel/coqc; vm_compute evaluates the verified validator (exhaustive Boolean execution of the parsed program against "
@@ -156,6 +157,11 @@ def run(ck: Check):
                                 signature={"name": case["name"].rsplit("-", 1)[0], "W": case["W"], "what": "validator"})
                 else:
                     ck.broke("correspondence", "validate_exhaustive", f"validator rejects {case['name']} but the mirror finds no failing input")
+    ck.extra["programs"] = ck.distribution.get("programs_validated_in_kernel_for_all_inputs", 0) + ck.distribution.get("programs_safe_checked_in_kernel", 0)
+    ck.extra["disagreements_checked"] = ck.distribution.get("rows_compared", 0)
+    ck.extra["explanation"] = ("programs = emitted translation units parsed and checked by the verified validator inside the Coq kernel "
+                               "(exhaustively over all Boolean inputs where the budget allows, safe_check otherwise); disagreements_checked = "
+                               "rows on which the real library, eval-mode PyTorch and the reference circuit were compared")
     return ck.finish()
 
 
